@@ -74,12 +74,10 @@ FN_KINDS = {
 
 
 def replay_one(d: dict[str, Any]) -> str | None:
-    if d['fn'] and d['scheduled']:
-        for kind in ('partial', 'object', 'method'):
-            msg = replay_kind(dict(d, h=[]), kind)
-            if msg:
-                return f'{msg} (schedule given as {kind})'
-    return replay_kind(d, 'lambda')
+    kind = d.get('fnkind', 'lambda')      # Sched.tla variable fnkind
+    msg = replay_kind(d, kind)
+    return f'{msg} (schedule given as {kind})' if msg and kind != 'lambda' \
+        else msg
 
 
 def replay_kind(d: dict[str, Any], kind: str) -> str | None:
